@@ -147,6 +147,25 @@ func (h *NtfnsHandler) Start() error {
 		}
 	}
 
+	// The node's best chain may have been reorganised to a branch that is not
+	// longer than the synced chain while the wallet was down: the loop above
+	// had nothing to do then, so hand the node's tip to the reorg logic.
+	if indexHeight <= syncHeight {
+		tip, err := h.walletMgr.chainFetcher.FetchBlockByHeight(indexHeight)
+		if err != nil {
+			logging.CPrint(logging.ERROR, "NtfnsHandler.Start(): FetchBlockByHeight error",
+				logging.LogFormat{"height": indexHeight, "err": err})
+			return err
+		}
+		if tip != nil && tip.BlockHash() != h.bestBlock.Hash {
+			if err = h.processConnectedBlock(tip); err != nil {
+				logging.CPrint(logging.ERROR, "NtfnsHandler.Start(): processConnectedBlock error",
+					logging.LogFormat{"height": indexHeight, "err": err})
+				return err
+			}
+		}
+	}
+
 	h.quitWg.Add(2)
 	go handle(h)
 	go worker(h)
